@@ -24,7 +24,8 @@ async def main():
     from tickit.core.device import Device, DeviceUpdate
     from tickit.core.state_interfaces.internal import InternalStateConsumer, InternalStateProducer, InternalStateServer
     from tickit.core.typedefs import Changes, Input, SimTime
-    epics_module._build_and_run_ioc = lambda: None
+    ioc_starts = []
+    epics_module._build_and_run_ioc = lambda: ioc_starts.append(1)   # the IOC itself is never started (no network); its start is counted
 
     class Dev(Device):
         def __init__(self, v):
@@ -90,6 +91,33 @@ async def main():
                 raised[n] = type(e).__name__
         out[run] = {n: {"records": {r.name.replace(f"{run}_", ""): r.get() for r in a.records}, "notified": a.notified, "interrupt": raised[n]}
                     for n, a in adapters.items()}
+        out[run]["__ioc_starts__"] = len(ioc_starts)
+        del ioc_starts[:]
+    if spec.get("divided"):
+        # the same EPICS devices in a configuration FILE, of which THIS process hosts only `alpha` (the others run elsewhere:
+        # `tickit components alpha cfg.yaml`): alpha's records must be served - the process-wide IOC starts once the adapters
+        # hosted HERE are ready
+        import types
+        import yaml
+        from tickit.core.simulation import build_simulation
+        made = {}
+        mod = types.ModuleType("vt_epics_cfg")
+        mod.__dict__.update(Dev=Dev, Adapter=Adapter, EpicsIo=EpicsIo, AdapterContainer=AdapterContainer, DeviceComponent=DeviceComponent, made=made)
+        sys.modules["vt_epics_cfg"] = mod
+        exec("import pydantic.v1.dataclasses\nfrom tickit.core.components.component import Component, ComponentConfig\n\n"
+             "@pydantic.v1.dataclasses.dataclass\nclass EpicsDev(ComponentConfig):\n    value: float\n\n"
+             "    def __call__(self) -> Component:\n        dev = Dev(self.value)\n        ad = Adapter(dev)\n        made[self.name] = ad\n"
+             "        return DeviceComponent(name=self.name, device=dev, adapters=[AdapterContainer(ad, EpicsIo('DIV_' + self.name.upper()))])\n", mod.__dict__)
+        path = os.path.join(d, "divided.yaml")
+        names = spec["runs"]["ext"]
+        with open(path, "w") as f:
+            yaml.safe_dump([{"type": "vt_epics_cfg.EpicsDev", "name": n, "inputs": {}, "value": 2.5 + i} for i, n in enumerate(names)], f)
+        reset_internal_bus()
+        del ioc_starts[:]
+        sim = build_simulation(path, "internal", include_schedulers=False, components_to_run={"alpha"})
+        await asyncio.wait_for(sim.run(), timeout=60)
+        out["divided"] = {"hosted": sorted(made), "__ioc_starts__": len(ioc_starts),
+                          "records": {r.name: r.get() for r in made["alpha"].records} if "alpha" in made else None}
 
 try:
     import contextlib
